@@ -178,3 +178,54 @@ def run(chk, repo, tier):
                           line=f.node.lineno, advisory=True,
                           witness='needs POP_KM fixed while CL is in the rate: only reachable with fix_parameters, which is '
                                   'not a search-space transformation')
+    # ---------------------------------------------------------------- T4 / T5 / T6
+    run_more(chk, repo)
+
+
+def run_more(chk, repo):
+    from sa import lints
+    from rules.C05 import run_o7
+    st = lints.self_test()
+    if not all(st.values()):
+        raise AnalysisError(f'lint self-test failed: {st}')
+    T4 = chk.rule('T4', 'a compartment replaced by a builder call is not used afterwards without rebinding (stale node: '
+                        'the following setter is a silent no-op) in the modeling functions', floor=30)
+    T5 = chk.rule('T5', 'search loops of the compartment finders: every break that ends the search follows an assignment '
+                        'of the result in that iteration', floor=3)
+    T6 = chk.rule('T6', 'feature -> function tables: no function defined in a loop that reads a loop variable and '
+                        'escapes the iteration (late binding)', floor=8)
+    run_o7(chk, T4, repo, only_modules={m for m in repo.modules if m.startswith('pharmpy.modeling')})
+    # T5
+    scope = [f for f in repo.all_funcs()
+             if (f.module.name == 'pharmpy.model.statements' and 'CompartmentalSystem.' in f.qualname)
+             or f.module.name in ('pharmpy.modeling.odes', 'pharmpy.modeling.metabolite', 'pharmpy.modeling.tmdd')]
+    for f in scope:
+        for L, res, brs in lints.search_loops(f.node):
+            chk.instance(T5, f'{f.qualname}: search loop line {L.lineno} result {sorted(res)}, breaks '
+                             f'{[(b.lineno, ok) for b, ok in brs]}')
+            for b, ok in brs:
+                if not ok:
+                    chk.violation(T5, f.module.rel, f.qualname,
+                                  f'for {unparse(L.target)} in {unparse(L.iter)}: break without {"/".join(sorted(res))} = ...',
+                                  'the search stops at a candidate that is rejected, so whether a later candidate is found '
+                                  'depends on the order of the graph edges', line=b.lineno,
+                                  witness='two models with the same compartments and flows built in a different order (e.g. '
+                                          'peripheral added before the depot, or set_tmdd before '
+                                          'set_first_order_absorption): the detector answers differently')
+    # T6: generators of the MFL feature modules and everything they are collected by
+    n = 0
+    for f in repo.all_funcs():
+        if not f.module.name.startswith('pharmpy.tools.mfl'):
+            continue
+        n += 1
+        hits = lints.late_binding(f.node)
+        if f.module.name.startswith('pharmpy.tools.mfl.feature') and f.name == 'features':
+            chk.instance(T6, f'{f.module.name}.features: closures capturing loop variables: {len(hits)}')
+        for node, L, cap, how in hits:
+            nm = getattr(node, 'name', 'lambda')
+            chk.violation(T6, f.module.rel, f.qualname, f'{nm} reads {", ".join(cap)} ({how})',
+                          'the function is created in a loop and reads the loop variable when it is called; all entries '
+                          'collected from the loop (dict(features)) then use the values of the last iteration',
+                          line=node.lineno,
+                          witness='a search space with more than one combination, e.g. TRANSITS([0,2,4]): every TRANSITS '
+                                  'entry creates the model of the last combination')
